@@ -78,6 +78,7 @@ Fixpoint stmt_calls (s : gstmt) : list (string * string) :=
   | SDefer c => sel_call c
   | SIf body els => (all body ++ all els)%list
   | SBlock body => all body
+  | SCallLit c body => (all body ++ sel_call c)%list      (* the statements of the literal are statements of the function *)
   | SAssign _ _ => []
   | SReturn _ => []
   end.
